@@ -13,6 +13,7 @@ import (
 	"encoding/json"
 	"errors"
 	"fmt"
+	"math"
 	"os"
 	"strconv"
 	"strings"
@@ -184,18 +185,19 @@ func genAlertCase(t *rapid.T) *alertCase {
 				if v < 1 {
 					v = 1
 				}
+				v = math.Floor(v)
 			}
 			vals[g] = v
 		}
 		copy(prev, vals)
-		if rapid.IntRange(0, 99).Draw(t, "flip") >= stay {
+		if pct(t, "flip") >= stay {
 			want = !want
 		}
 		return vals
 	}
 	c.Init = draw()
 	for i := 0; i < nSteps; i++ {
-		k := rapid.IntRange(0, 99).Draw(t, "kind")
+		k := pct(t, "kind")
 		switch {
 		case k < 2:
 			c.Steps = append(c.Steps, alertStep{Kind: "edit", Vals: draw()})
@@ -360,8 +362,13 @@ func (d *alertDriver) observe() ([]float64, error) {
 		if err := d.c.Call(&sut.Req{Op: "c20.metricsQuery", Org: d.cs.Org, Body: []byte(d.metricsParams())}, &r); err != nil {
 			return nil, d.wrap("metrics query", err)
 		}
-		if r.Err != "" || len(r.Errs) > 0 || r.Scalar {
+		if r.Err != "" || r.Scalar {
 			return nil, pt.Inconclusivef("metrics query of the alert did not answer normally: %+v", r)
+		}
+		if len(r.Errs) > 0 {
+			// evaluateMetricsAlert applies the condition to Results whatever the query's error list says
+			// (e.g. "no tags tree directory yet" for a store without rotated metrics segments); so does the harness
+			d.o.Class("metrics_query_with_error_list")
 		}
 		for _, m := range r.Results {
 			for _, v := range m {
@@ -390,6 +397,29 @@ func (d *alertDriver) observe() ([]float64, error) {
 		}
 	}
 	return vals, nil
+}
+
+// waitDataBack polls the alert's query until it returns want again (20 s for logs, 3 s for metrics).
+func (d *alertDriver) waitDataBack(want []float64) (bool, error) {
+	limit := 20 * time.Second
+	if d.isMetric() {
+		limit = 3 * time.Second
+	}
+	dl := time.Now().Add(limit)
+	for {
+		got, err := d.observe()
+		if err != nil {
+			if _, inc := err.(*pt.Inconclusive); !inc {
+				return false, err
+			}
+		} else if sameMultiset(got, want) {
+			return true, nil
+		}
+		if time.Now().After(dl) {
+			return false, nil
+		}
+		time.Sleep(5 * time.Millisecond)
+	}
 }
 
 func (d *alertDriver) resyncMetrics() error {
@@ -730,9 +760,20 @@ func checkAlert(cs *alertCase, o *pt.Obs) (err error) {
 			if err := d.start(); err != nil {
 				return err
 			}
-			if d.isMetric() {
+			// The new process loads segment metadata in the background (initSyncSegMetaForAllIds): wait until the
+			// alert's query sees again what it saw before the restart, so that the harness' reading of the query
+			// result and the evaluation cannot fall on different sides of that load.
+			back, err := d.waitDataBack(obsVals)
+			if err != nil {
+				return err
+			}
+			if !back {
+				if !d.isMetric() {
+					return pt.Inconclusivef("%s: the alert's query does not return the pre-restart result %v within 20 s after the restart (durability is another property)", what, obsVals)
+				}
 				// what survives a restart of the metrics store is another property's business (C08/C10):
-				// re-read what the alert query sees now and continue from there
+				// continue from what the alert query sees now
+				o.Class("metrics_changed_by_restart")
 				if err := d.resyncMetrics(); err != nil {
 					return err
 				}
@@ -754,7 +795,19 @@ func checkAlert(cs *alertCase, o *pt.Obs) (err error) {
 		}
 		track()
 	}
-	o.Class("visited_" + visited)
+	switch {
+	case strings.Contains(visited, "PFN"):
+		o.Class("path_pending_firing_normal")
+	case strings.Contains(visited, "F"):
+		o.Class("path_reached_firing")
+	case strings.Contains(visited, "P"):
+		o.Class("path_reached_pending_only")
+	default:
+		o.Class("path_stayed_normal")
+	}
+	if strings.Count(visited, "F") >= 2 {
+		o.Class("path_firing_twice_or_more")
+	}
 	o.Count("evaluations", int64(len(m.outcomes)))
 	o.Count("notifications", int64(m.posts))
 	if cs.N >= 2 && strings.Contains(visited, "PFN") {
@@ -771,6 +824,9 @@ func (d *alertDriver) afterEvaluation(m *alertModel, what string, target, obsVal
 		// the query engine answered something else than the harness arranged: not this property's business,
 		// the condition is defined over the actual query result.
 		o.Class("query_result_differs_from_arranged")
+		if os.Getenv("C20_DEBUG") != "" {
+			fmt.Fprintf(os.Stderr, "DIFFERS %s shape=%s target=%v observed=%v\n", what, cs.Shape, target, obsVals)
+		}
 	}
 	// which outcomes does the statement allow for these result values?
 	var allowed []bool
